@@ -9,4 +9,5 @@ CONSTANTS
 VIEW View
 INVARIANT Inv
 PROPERTY StepProps
+PROPERTY GoalEmit
 CHECK_DEADLOCK FALSE
